@@ -1,6 +1,6 @@
 \* by-hand run of the quick "T2" configuration of X07 (tools/props/x07.py generates its configurations from a template):
 \*   two traces of up to two spans (root + child) over five tag sets x two services, every tags= request of plan T,
-\*   the tag endpoints, the trace-by-id forms.  ExportMod = 0: nothing is printed.
+\*   the tag endpoints.  ExportMod = 0: nothing is printed.
 SPECIFICATION Spec
 CONSTANTS
   Keys <- MCKeys
